@@ -3297,6 +3297,27 @@ namespace bloch::runtime {
                 PendingArgsGuard argsRoot(m_pendingArgs, &args);
                 for (auto& a : callExpr->arguments) args.push_back(eval(a.get()));
                 if (builtin != builtInGates.end()) {
+                    // A rotation angle is a finite number (an int or long that reached a
+                    // float parameter through a type parameter counts as its value).
+                    auto angleOf = [&](const Value& v) {
+                        double theta = 0.0;
+                        if (v.type == Value::Type::Float)
+                            theta = v.floatValue;
+                        else if (v.type == Value::Type::Int)
+                            theta = static_cast<double>(v.intValue);
+                        else if (v.type == Value::Type::Long)
+                            theta = static_cast<double>(v.longValue);
+                        else if (v.type == Value::Type::Bit)
+                            theta = static_cast<double>(v.bitValue);
+                        else
+                            throw BlochError(ErrorCategory::Runtime, callExpr->line,
+                                             callExpr->column, "rotation angle must be numeric");
+                        if (!std::isfinite(theta))
+                            throw BlochError(ErrorCategory::Runtime, callExpr->line,
+                                             callExpr->column,
+                                             "rotation angle is not a finite number");
+                        return theta;
+                    };
                     // Map built-ins directly to simulator operations.
                     // TODO: In the noisy simulator this logic will have to remain the same
                     // so we will need the same basic quantum operations
@@ -3314,13 +3335,13 @@ namespace bloch::runtime {
                         m_sim.z(args[0].qubit);
                     } else if (name == "rx") {
                         ensureQubitActive(args[0].qubit, callExpr->line, callExpr->column);
-                        m_sim.rx(args[0].qubit, args[1].floatValue);
+                        m_sim.rx(args[0].qubit, angleOf(args[1]));
                     } else if (name == "ry") {
                         ensureQubitActive(args[0].qubit, callExpr->line, callExpr->column);
-                        m_sim.ry(args[0].qubit, args[1].floatValue);
+                        m_sim.ry(args[0].qubit, angleOf(args[1]));
                     } else if (name == "rz") {
                         ensureQubitActive(args[0].qubit, callExpr->line, callExpr->column);
-                        m_sim.rz(args[0].qubit, args[1].floatValue);
+                        m_sim.rz(args[0].qubit, angleOf(args[1]));
                     } else if (name == "cx") {
                         ensureQubitActive(args[0].qubit, callExpr->line, callExpr->column);
                         ensureQubitActive(args[1].qubit, callExpr->line, callExpr->column);
